@@ -36,7 +36,7 @@ WRAP_IO = ["fopen", "fclose", "fwrite", "gettimeofday", "getpid",
 WRAP_SCHED = ["pthread_create", "pthread_join", "pthread_cancel", "pthread_mutex_init",
               "pthread_mutex_lock", "pthread_mutex_unlock", "pthread_setcancelstate",
               "pthread_setcanceltype", "usleep", "socket", "setsockopt", "bind", "listen", "accept",
-              "close", "access", "system"]
+              "close", "access", "system", "printf", "puts", "putchar"]
 
 
 class BuildError(Exception):
@@ -147,7 +147,7 @@ def ensure(variant="io", quiet=True):
     objs = sorted(os.path.join(tmp, "obj", f) for f in os.listdir(os.path.join(tmp, "obj")))
     lib = os.path.join(tmp, "librebound" + SUFFIX)
     link = ["gcc", "-shared", "-o", lib] + objs + ["-Wl," + ",".join("--wrap=" + w for w in wraps),
-                                                    "-lm", "-lpthread"]
+                                                    "-lm", "-lpthread", "-ldl"]
     _run(link)
     shutil.copytree(os.path.join(REPO, "rebound"), os.path.join(tmp, "rebound"),
                     ignore=shutil.ignore_patterns("tests", "__pycache__"))
